@@ -10,7 +10,9 @@ SM_TUS = ['src/base/QXmppStreamManagement.cpp', 'src/base/QXmppUtils.cpp', 'src/
 SASL_TUS = ['src/base/QXmppSasl.cpp', 'src/base/QXmppStreamManagement.cpp', 'src/base/QXmppUtils.cpp', 'src/base/QXmppStanza.cpp']
 # instance -> bound of the sibling walks (max children of the input tree and of the serialized tree + 2)
 SASL = dict(sasl_auth=4, sasl_challenge=4, sasl_response=4, sasl_success=4, sasl_failure=5, sasl2_challenge=4, sasl2_response=4, sasl2_failure=5, sasl2_abort=4, sasl2_continue=5, sasl2_success=8,
-            sasl2_feature=6, sasl2_authenticate=8, bind2_feature=5, bind2_request=6, bind2_bound=5, fast_feature=5, fast_token_request=4, fast_request=4)
+            sasl2_feature=6, sasl2_authenticate=8, bind2_feature=5, bind2_request=6, bind2_bound=5, fast_feature=5, fast_token_request=4, fast_request=4, sasl2_success_safe=8)
+STANZA_TUS = ['src/base/QXmppStanza.cpp', 'src/base/QXmppIq.cpp', 'src/base/QXmppBindIq.cpp', 'src/base/QXmppPingIq.cpp', 'src/base/QXmppStreamFeatures.cpp', 'src/base/QXmppSasl.cpp',
+              'src/base/QXmppStreamManagement.cpp', 'src/base/QXmppUtils.cpp', 'src/base/Stream.cpp', 'src/base/QXmppNonza.cpp']
 MODELS = ['qt_core.c', 'qt_list.c', 'c02_dom.c', 'c02_env.c']
 SPEC = dict(
     property='C02',
@@ -19,6 +21,8 @@ SPEC = dict(
              instances=[I(e) for e in ['sm_enable', 'sm_enabled', 'sm_resume', 'sm_resumed', 'sm_ack', 'sm_request', 'sm_failed', 'sm_failed_safe']]),
         dict(name='sasl', harness='h_sasl.cpp', tus=SASL_TUS, models=MODELS, loop_bounds=DOMLOOPS(8),
              instances=[I(e, dom=SASL[e]) for e in SASL]),
+        dict(name='stanza', harness='h_stanza.cpp', tus=STANZA_TUS, models=MODELS,
+             instances=[I('error', dom=6), I('iq', dom=6)]),
     ],
     bounds=[], assumptions=[], outside=[],
 )
